@@ -100,6 +100,52 @@ func init() {
 		e.shapeDef(s, eng, "engine.signatureVerifier", "signatureVerifierShape")
 		// the string pieces joined into the signed content, in order
 		c18JoinArgs(s, e, sec, "VerifySignature", "signContent", "signContentParts")
+
+		// ---- round 4: the limit decision of decryptBody, semantically
+		c18Cond(s, e, cry, "decryptBody", "if err == nil && int64(len(content))", "limitUsedUp")
+		c18Cond(s, e, cry, "decryptBody", "if n, _ := io.ReadFull", "probeFoundMore")
+		c18CallArgs(s, e, cry, "decryptBody", "io.LimitReader", "limitReaderArgs")
+		c18CallArgs(s, e, cry, "decryptBody", "io.ReadFull", "readFullArgs")
+		c18CallArgs(s, e, cry, "decryptBody", "codec.EcbDecrypt", "ecbDecryptArgs")
+		c18CallArgs(s, e, cry, "decryptBody", "base64.StdEncoding.DecodeString", "decodeArgs")
+		c18CallArgs(s, e, cry, "cryptionResponseWriter.flush", "codec.EcbEncrypt", "ecbEncryptArgs")
+		c18CallArgs(s, e, cry, "LimitCryptionHandler", "decryptBody", "decryptBodyArgs")
+		c18CallArgs(s, e, cry, "CryptionHandler", "LimitCryptionHandler", "cryptionHandlerArgs")
+		c18Cond(s, e, csh, "LimitContentSecurityHandler", "if len(callbacks) == 0", "noUserCallback")
+		c18CallArgs(s, e, csh, "LimitContentSecurityHandler", "security.VerifySignature", "verifySignatureArgs")
+		c18CallArgs(s, e, csh, "LimitContentSecurityHandler", "LimitCryptionHandler", "csCryptionArgs")
+		c18CallArgs(s, e, csh, "LimitContentSecurityHandler", "executeCallbacks", "executeCallbacksArgs")
+		c18CallArgs(s, e, sec, "VerifySignature", "codec.HmacBase64", "hmacBase64Args")
+		c18CallArgs(s, e, auth, "Authorize", "parser.ParseToken", "parseTokenArgs")
+		c18CallArgs(s, e, hm, "Hmac", "hmac.New", "hmacNewArgs")
+		c18CallArgs(s, e, aes, "EcbDecrypt", "pkcs5Unpadding", "unpaddingArgs")
+		c18CallArgs(s, e, aes, "EcbEncrypt", "pkcs5Padding", "paddingArgs")
+		c18CallArgs(s, e, aes, "pkcs5Padding", "bytes.Repeat", "padRepeatArgs")
+		c18Cond(s, e, rsa, "rsaBase.crypt", "if r.bytesLimit*(i+1) > inputLen", "rsaLastChunk")
+		c18Cond(s, e, rsa, "rsaDecrypter.DecryptBase64", "if len(input) == 0", "rsaEmptyInput")
+
+		// ---- round 4: the wiring of the gates in rest/engine.go and rest/server.go
+		c18NativeTable(s, e, eng, "engine.buildChainWithNativeMiddlewares", "nativeSwitches", "nativeHandlers")
+		c18BindRouteChain(s, e, eng, "engine.bindRoute", "bindRouteChain", "bindRouteTail")
+		c18AppendAuth(s, e, eng, "engine.appendAuthHandler", "appendAuth")
+		c18VerifierKind(s, e, eng, "engine.signatureVerifier", "signatureVerifierKind")
+		c18CallArgs(s, e, eng, "engine.appendAuthHandler", "handler.Authorize", "authorizeArgs")
+		c18CallArgs(s, e, eng, "engine.signatureVerifier", "handler.LimitContentSecurityHandler", "contentSecurityArgs")
+		c18CallArgs(s, e, eng, "engine.bindFeaturedRoutes", "ng.bindRoute", "bindRouteArgs")
+		c18CallArgs(s, e, eng, "engine.bindFeaturedRoutes", "ng.signatureVerifier", "signatureVerifierArgs")
+		e.shapeDef(s, eng, "engine.bindFeaturedRoutes", "bindFeaturedRoutesShape")
+		e.shapeDef(s, eng, "engine.bindRoutes", "bindRoutesShape")
+		const srv = "rest/server.go"
+		c18ClosureAssigns(s, e, srv, "WithJwt", "withJwtAssigns")
+		c18ClosureAssigns(s, e, srv, "WithJwtTransition", "withJwtTransitionAssigns")
+		c18ClosureAssigns(s, e, srv, "WithSignature", "withSignatureAssigns")
+		c18ClosureAssigns(s, e, srv, "WithChain", "withChainAssigns")
+		c18ClosureAssigns(s, e, srv, "WithUnauthorizedCallback", "withUnauthorizedCallbackCalls")
+		e.shapeDef(s, srv, "Server.AddRoutes", "addRoutesShape")
+		e.shapeDef(s, srv, "Server.Use", "serverUseShape")
+		e.shapeDef(s, eng, "engine.use", "engineUseShape")
+		e.shapeDef(s, eng, "engine.addRoutes", "engineAddRoutesShape")
+		e.shapeDef(s, eng, "convertMiddleware", "convertMiddlewareShape")
 	})
 }
 
@@ -347,4 +393,300 @@ func c18ShiftConst(s *source, e *emitter, rel, name, lean string) {
 		}
 	}
 	c18Fail(e, lean, "shift constant "+name+" not found in "+rel)
+}
+
+// ---- round 4 helpers ----
+
+// c18CallArgs: the argument sources of every call of `callee` inside fn, in source order, one string per call.
+func c18CallArgs(s *source, e *emitter, rel, fn, callee, lean string) {
+	fd := s.findFunc(rel, fn)
+	if fd == nil {
+		e.errors = append(e.errors, "function "+fn+" not found in "+rel)
+		e.stringList(lean, "MISSING", []string{"MISSING"})
+		return
+	}
+	var items []string
+	ast.Inspect(fd.Body, func(n ast.Node) bool {
+		if c, ok := n.(*ast.CallExpr); ok && s.src(c.Fun) == callee {
+			var parts []string
+			for _, a := range c.Args {
+				parts = append(parts, s.src(a))
+			}
+			if c.Ellipsis.IsValid() {
+				parts[len(parts)-1] += "..."
+			}
+			items = append(items, strings.Join(parts, " | "))
+		}
+		return true
+	})
+	if items == nil {
+		e.errors = append(e.errors, fn+": no call of "+callee)
+	}
+	e.stringList(lean, "arguments of the calls of `"+callee+"` in `"+fn+"` ("+rel+")", items)
+}
+
+// c18ClosureAssigns: the statements of the function literal a `With…` option returns, as source text.
+func c18ClosureAssigns(s *source, e *emitter, rel, fn, lean string) {
+	fd := s.findFunc(rel, fn)
+	var items []string
+	if fd != nil {
+		ast.Inspect(fd.Body, func(n ast.Node) bool {
+			if fl, ok := n.(*ast.FuncLit); ok && items == nil {
+				for _, st := range fl.Body.List {
+					items = append(items, s.src(st))
+				}
+				return false
+			}
+			return true
+		})
+	}
+	if items == nil {
+		e.errors = append(e.errors, "option "+fn+" not found in "+rel)
+		items = []string{"MISSING"}
+	}
+	e.stringList(lean, "statements of the closure returned by `"+fn+"` in "+rel, items)
+}
+
+// c18NativeTable: buildChainWithNativeMiddlewares must be `chn := chain.New()`, a run of
+// `if ng.conf.Middlewares.X { chn = chn.Append(<call>) }` and `return chn`; emits the switches and the callees in order.
+func c18NativeTable(s *source, e *emitter, rel, fn, leanSw, leanH string) {
+	fd := s.findFunc(rel, fn)
+	var sw, hs []string
+	bad := func(msg string) {
+		e.errors = append(e.errors, fn+": "+msg)
+	}
+	if fd == nil {
+		bad("not found")
+	} else {
+		for i, st := range fd.Body.List {
+			src := s.src(st)
+			switch {
+			case i == 0:
+				if src != "chn := chain.New()" {
+					bad("first statement is " + src)
+				}
+			case i == len(fd.Body.List)-1:
+				if src != "return chn" {
+					bad("last statement is " + src)
+				}
+			default:
+				is, ok := st.(*ast.IfStmt)
+				if !ok || is.Else != nil || is.Init != nil || len(is.Body.List) != 1 {
+					bad("unexpected statement " + src)
+					continue
+				}
+				cond := s.src(is.Cond)
+				as, ok := is.Body.List[0].(*ast.AssignStmt)
+				if !ok || !strings.HasPrefix(cond, "ng.conf.Middlewares.") || len(as.Lhs) != 1 || s.src(as.Lhs[0]) != "chn" || as.Tok != token.ASSIGN {
+					bad("unexpected statement " + src)
+					continue
+				}
+				call, ok := as.Rhs[0].(*ast.CallExpr)
+				if !ok || s.src(call.Fun) != "chn.Append" || len(call.Args) != 1 {
+					bad("unexpected append " + src)
+					continue
+				}
+				name := s.src(call.Args[0])
+				if c2, ok := call.Args[0].(*ast.CallExpr); ok {
+					name = s.src(c2.Fun)
+				}
+				sw = append(sw, strings.TrimPrefix(cond, "ng.conf.Middlewares."))
+				hs = append(hs, name)
+			}
+		}
+	}
+	e.stringList(leanSw, "the switches of RestConf.Middlewares `"+fn+"` consults, in order", sw)
+	e.stringList(leanH, "the handler each switch appends, in order", hs)
+}
+
+// c18ChainStmt translates one statement of bindRoute that assigns the chain into a Lean function
+// `Option (List String) → Option (List String)` (none = a nil chain.Chain).
+func c18ChainStmt(s *source, st ast.Stmt) (string, bool) {
+	src := s.src(st)
+	switch x := st.(type) {
+	case *ast.AssignStmt:
+		if len(x.Lhs) != 1 || len(x.Rhs) != 1 || s.src(x.Lhs[0]) != "chn" {
+			return "", false
+		}
+		switch s.src(x.Rhs[0]) {
+		case "ng.chain":
+			return "(fun _ => custom)", true
+		case "ng.buildChainWithNativeMiddlewares(fr, route, metrics)":
+			return "(fun _ => some native)", true
+		case "ng.appendAuthHandler(fr, chn, verifier)":
+			return "(fun c => c.map auth)", true
+		}
+	case *ast.IfStmt:
+		if x.Init == nil && x.Else == nil && s.src(x.Cond) == "chn == nil" {
+			body := "c"
+			for _, b := range x.Body.List {
+				f, ok := c18ChainStmt(s, b)
+				if !ok {
+					return "", false
+				}
+				body = "(" + f + " " + body + ")"
+			}
+			return "(fun c => if c.isNone then " + body + " else c)", true
+		}
+	case *ast.RangeStmt:
+		if s.src(x.X) == "ng.middlewares" && len(x.Body.List) == 1 &&
+			s.src(x.Body.List[0]) == "chn = chn.Append(convertMiddleware(middleware))" {
+			return "(fun c => c.map (· ++ uses))", true
+		}
+	}
+	_ = src
+	return "", false
+}
+
+// c18BindRouteChain: bindRoute's chain assembly as a Lean function of (custom chain, native chain, auth, uses);
+// the statements after the assembly (ThenFunc, router.Handle) are emitted as text.
+func c18BindRouteChain(s *source, e *emitter, rel, fn, lean, leanTail string) {
+	fd := s.findFunc(rel, fn)
+	if fd == nil {
+		c18Fail(e, lean, "function "+fn+" not found in "+rel)
+		e.stringList(leanTail, "MISSING", []string{"MISSING"})
+		return
+	}
+	expr := "custom"
+	var tail []string
+	inTail := false
+	for _, st := range fd.Body.List {
+		if !inTail {
+			if f, ok := c18ChainStmt(s, st); ok {
+				expr = "(" + f + " " + expr + ")"
+				continue
+			}
+			inTail = true
+		}
+		if _, ok := c18ChainStmt(s, st); ok {
+			e.errors = append(e.errors, fn+": chain statement after the chain was used: "+s.src(st))
+		}
+		tail = append(tail, s.src(st))
+	}
+	e.printf("/-- the chain `%s` (%s) hands to `ThenFunc`, statement by statement: `custom` = ng.chain (none = nil), `native` = buildChainWithNativeMiddlewares, `auth` = appendAuthHandler(fr, ·, verifier), `uses` = ng.middlewares -/\n", fn, rel)
+	e.printf("def %s (custom : Option (List String)) (native : List String) (auth : List String → List String) (uses : List String) : Option (List String) :=\n  %s\n\n", lean, expr)
+	e.stringList(leanTail, "the statements of `"+fn+"` after the chain assembly", tail)
+}
+
+// c18AppendAuth: appendAuthHandler as a Lean function; every `chn = chn.Append(X)` appends the callee name of X
+// followed by its arguments' sources.
+func c18AppendAuth(s *source, e *emitter, rel, fn, lean string) {
+	fd := s.findFunc(rel, fn)
+	if fd == nil {
+		c18Fail(e, lean, "function "+fn+" not found in "+rel)
+		return
+	}
+	conds := map[string]string{"fr.jwt.enabled": "jwtEnabled", "len(fr.jwt.prevSecret) == 0": "prevEmpty"}
+	var block func(list []ast.Stmt, cur string) (string, bool)
+	block = func(list []ast.Stmt, cur string) (string, bool) {
+		for _, st := range list {
+			switch x := st.(type) {
+			case *ast.AssignStmt:
+				if len(x.Lhs) != 1 || s.src(x.Lhs[0]) != "chn" {
+					return "", false
+				}
+				call, ok := x.Rhs[0].(*ast.CallExpr)
+				if !ok || s.src(call.Fun) != "chn.Append" || len(call.Args) != 1 {
+					return "", false
+				}
+				cur = "(" + cur + " ++ [" + leanString(s.src(call.Args[0])) + "])"
+			case *ast.IfStmt:
+				v, ok := conds[s.src(x.Cond)]
+				if !ok || x.Init != nil {
+					return "", false
+				}
+				a, ok := block(x.Body.List, cur)
+				if !ok {
+					return "", false
+				}
+				b := cur
+				if x.Else != nil {
+					eb, ok := x.Else.(*ast.BlockStmt)
+					if !ok {
+						return "", false
+					}
+					if b, ok = block(eb.List, cur); !ok {
+						return "", false
+					}
+				}
+				cur = "(if " + v + " then " + a + " else " + b + ")"
+			case *ast.ReturnStmt:
+				if len(x.Results) != 1 || s.src(x.Results[0]) != "verifier(chn)" {
+					return "", false
+				}
+				cur = "(verifier " + cur + ")"
+			default:
+				return "", false
+			}
+		}
+		return cur, true
+	}
+	body, ok := block(fd.Body.List, "chn")
+	if !ok || !strings.HasPrefix(body, "(verifier ") {
+		c18Fail(e, lean, fn+": statements outside the translated subset")
+		return
+	}
+	e.printf("/-- `%s` (%s) -/\ndef %s (jwtEnabled prevEmpty : Bool) (verifier : List String → List String) (chn : List String) : List String :=\n  %s\n\n", fn, rel, lean, body)
+}
+
+// c18VerifierKind: the decision list in front of signatureVerifier's gate: "identity" (the chain is returned as it is),
+// "error" (ErrSignatureConfig), "gate" (LimitContentSecurityHandler appended), as a Lean function of the three inputs.
+func c18VerifierKind(s *source, e *emitter, rel, fn, lean string) {
+	fd := s.findFunc(rel, fn)
+	if fd == nil {
+		c18Fail(e, lean, "function "+fn+" not found in "+rel)
+		return
+	}
+	conds := map[string]string{"!signature.enabled": "(!enabled)", "len(signature.PrivateKeys) == 0": "(decide (nkeys = 0))", "signature.Strict": "strict"}
+	classify := func(r *ast.ReturnStmt) string {
+		if len(r.Results) != 2 {
+			return ""
+		}
+		a, b := s.src(r.Results[0]), s.src(r.Results[1])
+		switch {
+		case a == "nil" && b == "ErrSignatureConfig":
+			return "\"error\""
+		case a == "nil" && b == "err":
+			return "\"keyfile-error\""
+		case b == "nil" && a == "func(chn chain.Chain) chain.Chain { return chn }":
+			return "\"identity\""
+		case b == "nil" && strings.Contains(a, "handler.LimitContentSecurityHandler") && !strings.Contains(a, "return chn }"):
+			return "\"gate\""
+		}
+		return ""
+	}
+	var block func(list []ast.Stmt) (string, bool)
+	block = func(list []ast.Stmt) (string, bool) {
+		if len(list) == 0 {
+			return "", false
+		}
+		switch x := list[0].(type) {
+		case *ast.ReturnStmt:
+			k := classify(x)
+			return k, k != ""
+		case *ast.IfStmt:
+			v, ok := conds[s.src(x.Cond)]
+			if !ok || x.Else != nil {
+				return "", false
+			}
+			a, ok := block(x.Body.List)
+			if !ok {
+				return "", false
+			}
+			b, ok := block(list[1:])
+			if !ok {
+				return "", false
+			}
+			return "(if " + v + " then " + a + " else " + b + ")", true
+		case *ast.AssignStmt, *ast.RangeStmt: // decrypters := make(…) and the key loading loop
+			return block(list[1:])
+		}
+		return "", false
+	}
+	body, ok := block(fd.Body.List)
+	if !ok {
+		c18Fail(e, lean, fn+": statements outside the translated subset")
+		return
+	}
+	e.printf("/-- the decision list of `%s` (%s) -/\ndef %s (enabled : Bool) (nkeys : Int) (strict : Bool) : String :=\n  %s\n\n", fn, rel, lean, body)
 }
